@@ -372,6 +372,38 @@ def check_noop(ctx):
     ctx.expect(paths, ret=1)
 
 
+def check_dylib_two(ctx):
+    ctx.eng.max_strlen = 64
+    order = ctx.sym("order", 32)
+    x = ctx.sym("x", 32)
+    ctx.assume(z3.ULE(order, 3))
+    paths = ctx.run("k_dylib_two", [order, x])
+    for q in paths:
+        if q.status != "ret":
+            ctx.fail(q, "two live dylib instances: the sequence ended %s (%s)" % (q.status, q.info))
+            continue
+        lg = q.user.get("log") or []
+        ok, why = True, ""
+        want = None
+        for e in lg:
+            if e[0] == 29:
+                if want is not None:
+                    ok, why = False, "an invocation reached no library function"
+                want = (e[1], e[2])
+            elif e[0] == 30:
+                if want is None or (e[1], e[2]) != want:
+                    ok, why = False, "library %s function %s ran, expected %s" % (e[1], e[2], want)
+                want = None
+        if want is not None:
+            ok, why = False, "the last invocation reached no library function"
+        opened = [e[1] for e in q.events if e[0] == "dlopen"]
+        closed = [symex.simp(e[1]).as_long() for e in q.events if e[0] == "dlclose"]
+        hs = [0x7E0000000000 + n * 0x100 for n in opened]
+        ctx.require(q, z3.BoolVal(ok), "every by-name invocation runs the function of the library its own sandbox instance was created with (%s)" % why)
+        ctx.require(q, z3.BoolVal(len(opened) == 2 and sorted(closed) == sorted(hs)), "each instance closes exactly its own library handle (opened %s, closed %s)" % (hs, closed))
+    ctx.expect(paths, ret=4)
+
+
 def jobs(tier, seed):
     if tier == "thorough":
         SIGS.update(SIGS12)
@@ -395,5 +427,6 @@ def jobs(tier, seed):
     for j in C12.jobs("quick", seed):
         if j.name in ("C12_noop_nested", "C12_noop_etls_nested", "C12_dylib_nested", "C12_dylib_etls_nested"):
             out.append(Job(j.name.replace("C12_", "C11_cbarg_"), j.source, j.checks, flags=j.flags, unwind=j.unwind, compare_logs=j.compare_logs, native=j.want_native))
+    out.append(Job("C11_dylib_two", '#include "C11_dylib2.inc"\n', [dict(name="dylib two instances, two libraries, same names", fn=check_dylib_two, unwind=300)], native=False))
     out.append(Job("C11_noop_static", NOOP_SRC, [dict(name="noop static call", fn=check_noop, unwind=300)], native=False))
     return out
